@@ -378,3 +378,43 @@ Proof.
     apply credentials_roundtrip. auto using is_text_app.
   - intros t ak sk v E. cbn [auth_value] in E. congruence.
 Qed.
+
+(* ---- no authenticating layer, no Authorization key (in any spelling) from the caller: no such header ---- *)
+
+Lemma no_auth_l ads addr sids path meth params data d0 p d :
+  Forall (fun x => is_auth x = false) ads ->
+  last_cap auth_key d0 = None ->
+  adapters_pre ads (path, d0) = Ok (p, d) ->
+  dict_get auth_key (q_headers (snd (assemble addr sids ads p meth params data d))) = None.
+Proof.
+  intros F L H. rewrite assemble_headers, request_headers_get, final_dict_auth.
+  destruct (adapters_pre_noauth _ _ _ _ _ F H) as [_ E]. rewrite E. exact L.
+Qed.
+
+(* ---- a body is never dropped: whatever is not None is sent, also b'' / '' / {} / [] / 0 / False ---- *)
+
+Lemma body_kept_l addr sids ads p meth params b d :
+  exists bytes, q_data (snd (assemble addr sids ads p meth params (Some b) d)) = Some bytes /\
+    bytes = match b with BBytes x => x | BStr s => utf8 s | BJson js _ => utf8 js end.
+Proof. rewrite assemble_body. destruct b; eauto. Qed.
+
+Lemma ctype_not_reqid : reqid_set_key <> ctype_test_key /\ capitalize reqid_set_key <> capitalize ctype_set_key.
+Proof. vm_compute. split; discriminate. Qed.
+
+(* a structured body -- truthy or not -- is sent as utf-8 of json.dumps and, unless the key Content-Type is
+   already there, labelled application/json *)
+Lemma json_body_l addr sids ads p meth params js t d :
+  dict_mem ctype_test_key d = false ->
+  let cap := snd (assemble addr sids ads p meth params (Some (BJson js t)) d) in
+  q_data cap = Some (utf8 js) /\
+  dict_get (capitalize ctype_set_key) (q_headers cap) = Some (HStr ctype_val).
+Proof.
+  intros M cap. unfold cap. split; [rewrite assemble_body; reflexivity|].
+  rewrite assemble_headers, request_headers_get. unfold final_dict.
+  destruct ctype_not_reqid as [N1 _].
+  set (d1 := if sids then if dict_mem reqid_test_key d then d else dict_set reqid_set_key HGenId d else d).
+  assert (M1 : dict_mem ctype_test_key d1 = false).
+  { unfold d1. destruct sids; [|exact M]. destruct (dict_mem reqid_test_key d); [exact M|].
+    rewrite dict_mem_set_other; [exact M|exact N1]. }
+  rewrite M1. apply last_cap_set_new; [|reflexivity]. rewrite <- ctype_keys_agree. exact M1.
+Qed.
